@@ -161,6 +161,9 @@ def enumerate_sites(fn):
             cl = ("panic", "diverging call (panic / abort)")
         if cl is None and c.func.get("path") and c.func.get("path") != c.name:
             cl = classify_callee(c.func["path"], c.targs)
+        if cl and cl[0] == "vec-pos" and short(c.name).endswith("::drain") and \
+                "core::ops::range::RangeFull" in (c.func.get("res_targs") or c.targs or []):
+            cl = None       # drain(..): the full range is in bounds for every length
         if cl:
             kind, why = cl
             d = short(c.name)
